@@ -34,6 +34,12 @@ NeverPanic == \A s \in Stackings, t \in Tampers : "panic" \notin Acceptable(s, t
 EncryptedNeverDifferent == \A s \in Stackings, t \in Tampers \ {"none"} : HasEnc(s) => "different" \notin Acceptable(s, t)
 
 (* abstract metadata shapes whose concrete instances must survive every codec *)
-Shapes == [id : {"a", "with/slash", "unicode"}, ver : {0, 1, 1000000000}, phase : {"running", "tearingDown"}, nfins : {0, 1, 3},
-           nlabels : {0, 2}, nann : {0, 1}, ts : {"zero", "sec", "nano"}, owner : {"", "ctl"}, size : Sizes]
+(* txt / tv: which kind of text the strings of the metadata are (id, owner, a finalizer, a label value, an annotation value):     *)
+(* plain, or one of the scalars a text format gives a meaning of its own to - the YAML null / boolean / number spellings,         *)
+(* structural characters, leading / trailing blanks and line breaks; tv picks the variant                                          *)
+BaseShapes == [id : {"a", "with/slash", "unicode"}, ver : {0, 1, 1000000000}, phase : {"running", "tearingDown"}, nfins : {0, 1, 3},
+               nlabels : {0, 2}, nann : {0, 1}, ts : {"zero", "sec", "nano"}, owner : {"", "ctl"}, size : Sizes, txt : {"plain"}, tv : {0}]
+TextShapes == [id : {"a"}, ver : {1}, phase : {"running"}, nfins : {1}, nlabels : {2}, nann : {1}, ts : {"sec"}, owner : {"ctl"}, size : {"small"},
+               txt : {"null", "bool", "num", "struct", "blank"}, tv : 0..3]
+Shapes == BaseShapes \cup TextShapes
 =============================================================================
